@@ -267,3 +267,24 @@ CHECKS["C08"] = {
     ],
     "assumptions": ["glibc strto*/printf are the conversion back end"],
 }
+
+CHECKS["C09"] = {
+    "engine": "E1",
+    "technique": "exhaustive enumeration of literal families (all notations x boundary magnitudes, all short digit strings, ALL strings up to length n over a boolean alphabet) through the real getters against a 128-bit evaluator / by-construction float literals",
+    "level_text": "every integer literal of the families (sign {none,+,-} x {decimal, octal, hex lower/upper} x {every type limit +-2, 2^k and 2^k+-1 for k=31..65, "
+                  "ALL magnitudes below 65536, repdigits and powers of ten up to 25 digits}) is read by the four integer getters and their Def variants: exact "
+                  "value when representable, a failure otherwise; float/double literals whose correctly rounded result is known by construction (exact "
+                  "expansions, exact ties, tie +- 10^-1200, generated with integer arithmetic, no strtod on the oracle side); ALL strings up to length n over "
+                  "a 28-character alphabet (letters of the six words in both cases, 0, 1, djb2 neighbours) through the boolean getter; keys without value "
+                  "through every typed getter",
+    "level_note": "bounded: boolean strings of length <= 5 (quick, 17.8M) / <= 6 (thorough, 500M); literal families as listed; trusted: the 128-bit evaluator in harness/c09.c, Python Fraction arithmetic in bin/pregen.py, ASan/UBSan",
+    "rule": "case = one literal text; non-trivial = every integer/float literal, and the boolean strings that are one of the accepted spellings (the others must all fail); distinct by construction",
+    "deadline": {"quick": 100, "thorough": 900},
+    "parts": [
+        {"name": "integers", "harness": "c09", "variant": "asan", "quick": ["--p0", 0], "thorough": ["--p0", 0], "deadline_share": 0.3, "floor": {"quick": 100000, "thorough": 100000}},
+        {"name": "booleans", "harness": "c09", "variant": "asan", "quick": ["--p0", 1, "--p1", 5], "thorough": ["--p0", 1, "--p1", 6], "deadline_share": 0.4, "floor": {"quick": 60, "thorough": 60}},
+        {"name": "floats", "harness": "c09", "variant": "asan", "pregen": "c09_literals", "quick": ["--p0", 2], "thorough": ["--p0", 2], "deadline_share": 0.2, "floor": {"quick": 1000, "thorough": 1000}},
+        {"name": "novalue", "harness": "c09", "variant": "asan", "shards": 1, "quick": ["--p0", 3], "thorough": ["--p0", 3], "deadline_share": 0.1, "floor": {"quick": 10, "thorough": 10}},
+    ],
+    "assumptions": ["literals with trailing text (12abc) and literals whose correctly rounded value overflows are outside the statement and not generated"],
+}
